@@ -73,6 +73,11 @@ def cases(tier: str, seed: int) -> list[dict]:
             if dim >= 2 and not (heavy and tier == "quick"):
                 out.append({"sc": "form", "form": "vector-diffusion", "et": et, "mt": ["mass", "rigi"][(k + r) % 2], "coef": ["const", "Ne", "NePg", "coords"][(k + r) % 4]})
                 k += 1
+        # the same forms on curved elements (the jacobian varies inside the elements along the hole), two length scales
+        for j, et in enumerate(["TRI6", "QUAD8", "QUAD9", "TRI10"]):
+            for form in (("diffusion", "elasticity", "mass-vector", "advection") if tier != "quick" else (("diffusion", "elasticity", "mass-vector", "advection")[(j + r) % 4],)):
+                out.append({"sc": "form", "form": form, "et": et, "mt": ["mass", "rigi"][(k + r) % 2], "coef": ["const", "coords", "NePg", "Ne"][(k + r) % 4], "curved": [1.0, 1e-3][(k + r) % 2]})
+                k += 1
         # time-dependent twins: element types on which the dedicated simulation's 'rigi' rule and the field's 'mass' rule both
         # integrate the stiffness exactly (affine simplices, organised QUAD4); static twins use a 'rigi' field
         for et in ["SEG2", "SEG3"]:
@@ -87,8 +92,12 @@ def cases(tier: str, seed: int) -> list[dict]:
     return out
 
 
-def small_group(rng, et):
+def small_group(rng, et, curved=None):
     with quiet():
+        if curved is not None:
+            # curved (isoparametric) elements around a circular hole, at the length scale given
+            mesh, _ = gm.mesh_curved(rng, et, 2, curved)
+            return mesh, 2
         if et.startswith("SEG"):
             mesh = gm.mesh1d(et, 2.0, 4)
             return mesh, 1
@@ -128,10 +137,10 @@ def run_case(case: dict, ctx: Ctx) -> None:
 def run_form(case, ctx, rng):
     form, et, mtname, ccls = case["form"], case["et"], case["mt"], case["coef"]
     mt = MatrixType(mtname)
-    key = f"C13/{form}" + (f"/dof_n={case['dof_n']}" if "dof_n" in case else "")
+    key = f"C13/{form}" + (f"/dof_n={case['dof_n']}" if "dof_n" in case else "") + ("/curved" if "curved" in case else "")
     ctx.default_key = key
     with ctx.monitored("no-exception", key + "/mesh/raised"):
-        mesh, dim = small_group(rng, et)
+        mesh, dim = small_group(rng, et, case.get("curved"))
     g = mesh.Get_list_groupElem(dim)[0]
     c_op, c_form = coefficient(rng, ccls, g, mt)
 
